@@ -16,8 +16,12 @@ from vf.props.c02 import site_of
 
 PROPERTY = 'C12'
 RULE = ('cases = histories of 2..8 (thorough ..20) calls on one QueryPlanner drawn from prepare(template) / info() / '
-        'execute(values) / execute(wrong number of values) / prepare(other template), the model being the last prepared '
-        'template; templates come from an own generator with holes in select list (incl. aliased and parenthesised '
+        'execute(values) / execute(wrong number of values, or no value list at all for n >= 1) / prepare(other template) '
+        '/ on an executed statement also execute again with other values, info(), wrong count / prepare of the same tree '
+        'object once more (n >= 1), the model being the last prepared template; plus a fixed list of histories over the '
+        'shapes of vf/gens/c12_shapes.py (chains of 3..4 set operations flat or with a parenthesised pair, WITH before / '
+        'on a set operation, UPDATE SET naming a column twice; these are also drawn at random, 5 of 20 statements); '
+        'values include None (printed NULL, 1 in 10); templates come from an own generator with holes in select list (incl. aliased and parenthesised '
         'holes), WHERE, JOIN ON, CASE operand/WHEN/THEN/ELSE, function arguments incl. substring(x FROM ?), IN lists, '
         'BETWEEN bounds, sub-selects on either side of a join / in WHERE / scalar, set operations, CTEs, INSERT VALUES '
         '(1-3 rows) and INSERT..SELECT, UPDATE SET / FROM / WHERE, DELETE, CREATE TABLE (select), GROUP BY / HAVING / '
@@ -32,20 +36,32 @@ ASSUMPTIONS = ['the parser is trusted to build the same tree for the `?` text an
                'mindsdb dialect only; placeholders in LIMIT/OFFSET and in table position are outside the grammar / the '
                'property\'s expression positions; a hole directly under a unary minus is not generated',
                'a prepare refused with an exception is judged only against preparing the inlined statement (same '
-               'exception type = consistent refusal); re-executing an executed statement and info() after execution are '
-               'unspecified and not generated',
+               'exception type = consistent refusal), unless the exception is not a PlanningException and plan_query plans '
+               'the inlined statement (a crash, not a refusal)',
+               'a prepared statement stays prepared: it can be executed any number of times (each time judged against '
+               'the inlined text of that value list) and asked for its parameters after an execution; executing again a '
+               'statement without placeholders is not generated (the planner plans the caller\'s tree in place, the '
+               'second planning of that tree is outside this property), for the same reason the same tree is prepared '
+               'again only when it has placeholders and has not been planned unbound',
+               'a SET list naming a column twice loses an assignment in the parser: when a placeholder goes with it the '
+               'reported count is judged (n placeholders are in the statement) and nothing further',
                'when both paths refuse to plan (same exception type) the bound tree (utils.fill_query_params on a fresh '
                'parse) is compared with the tree of the inlined text instead']
-_Q = {'__nontrivial__': 1500, 'exec:plans-compared': 2000, 'exec:nontrivial': 1600,
-      'clause:target': 1600, 'clause:where': 1700, 'clause:on': 800, 'clause:group': 700, 'clause:having': 490,
-      'clause:order': 880, 'clause:set': 430, 'clause:values': 260,
-      'pos:case-operand': 400, 'pos:case-when': 530, 'pos:case-then': 580, 'pos:case-else': 370, 'pos:func-arg': 430,
-      'pos:func-from-arg': 260, 'pos:in-list': 1000, 'pos:between': 650,
-      'scope:sub-left': 360, 'scope:sub-right': 400, 'scope:sub-where': 460, 'deco:alias': 660,
-      'tag:insert:rows=2': 90, 'tag:insert:rows=3': 80, 'tag:stmt:update': 540, 'tag:stmt:delete': 160,
-      'op:info': 840, 'op:wrong-count': 850, 'wrong:fewer': 560, 'wrong:more': 390,
-      'hist:exec-on-reused-planner': 1380, 'hist:exec-after-wrong-count': 640, 'hist:prepare-over-unexecuted': 750,
-      'val:int-negative': 1090, 'val:float': 1330, 'val:str': 1650, 'n=0': 230}
+_Q = {'__nontrivial__': 1411, 'exec:plans-compared': 1810, 'exec:nontrivial': 1520, 'clause:target': 1270,
+      'clause:where': 1500, 'clause:on': 660, 'clause:group': 490, 'clause:having': 490, 'clause:order': 610,
+      'clause:set': 250, 'clause:values': 140, 'pos:case-operand': 270, 'pos:case-when': 310,
+      'pos:case-then': 360, 'pos:case-else': 190, 'pos:func-arg': 280, 'pos:func-from-arg': 110,
+      'pos:in-list': 880, 'pos:between': 560, 'scope:sub-left': 190, 'scope:sub-right': 180,
+      'scope:sub-where': 360, 'deco:alias': 660, 'tag:insert:rows=2': 50, 'tag:insert:rows=3': 50,
+      'tag:stmt:update': 280, 'tag:stmt:delete': 80, 'op:info': 750, 'op:wrong-count': 750, 'wrong:fewer': 450,
+      'wrong:more': 230, 'hist:exec-on-reused-planner': 1000, 'hist:exec-after-wrong-count': 410,
+      'hist:prepare-over-unexecuted': 680, 'val:int-negative': 900, 'val:float': 1100, 'val:str': 1350,
+      'n=0': 120, 'hist:re-execute': 190, 'hist:same-tree-again-after-exec': 110, 'hist:info-after-exec': 85,
+      'hist:wrong-count-after-exec': 80, 'wrong:none': 90, 'val:NoneType': 730, 'tag:setop:chain': 360,
+      'tag:cte:on-setop': 140, 'tag:cte:before-setop': 55, 'tag:setop-chain:flat': 155,
+      'tag:setop-chain:paren-left': 45, 'tag:setop-chain:paren-right': 35, 'tag:setop-chain:n=4': 70,
+      'prepare:placeholder-dropped-by-parser': 100, 'hist:cte-name-of-earlier-statement': 40,
+      'tag:update:set-column-twice': 15}
 FLOORS = {'quick': _Q, 'thorough': {k: 10 * v for k, v in _Q.items()}}
 N = {'quick': 400, 'thorough': 6000}
 MAX_OPS = {'quick': 8, 'thorough': 20}
